@@ -22,3 +22,39 @@ package peer
 //@ ensures result == old(c.streamAlloc.next)
 //@ ensures c.streamAlloc.next == old(c.streamAlloc.next) + 2
 //@ ensures result != 0 && result % 2 == ite(c.streamAlloc.isDialer, 1, 0)
+
+// ---- C31: no attempt starts and no retry is armed while paused; bounded exponential backoff ----
+// float64 arithmetic is modelled over the reals (assumption A6).
+
+//@ guarded Reconnector.mu: paused, closed, states
+
+//@ func (*Reconnector).Schedule
+//@ prop C31
+//@ check lockset
+//@ modifies *
+//@ at call time.AfterFunc assert !r.paused && !r.closed
+
+//@ func (*Reconnector).attemptReconnect
+//@ prop C31
+//@ check lockset
+//@ modifies *
+//@ after call Lock let mayStart = !r.paused && !r.closed
+//@ after call time.Now let d0 = state.nextDelay
+//@ at call dynamic.callback assert mayStart
+//@ at call dynamic.callback assert state.nextDelay <= r.cfg.MaxDelay
+//@ at call dynamic.callback assert state.nextDelay == min(trunc(real(d0) * r.cfg.Multiplier), r.cfg.MaxDelay)
+//@ at call time.AfterFunc assert !r.paused && !r.closed
+
+//@ func (*Reconnector).addJitter
+//@ prop C31
+//@ after call time.Now assume $ret >= 0
+//@ ensures r.cfg.Jitter <= 0.0 ==> result == d
+//@ ensures d >= 0 && r.cfg.Jitter > 0.0 && r.cfg.Jitter <= 1.0 ==> real(result) >= real(d) - real(d) * r.cfg.Jitter - 1.0 && real(result) <= real(d) + real(d) * r.cfg.Jitter + 1.0
+
+//@ func (*Reconnector).Pause
+//@ prop C31
+//@ check lockset
+//@ modifies *
+//@ ensures old(r.closed) || r.paused
+
+//@ census[C31] time.AfterFunc in (*Reconnector).Schedule, (*Reconnector).attemptReconnect
